@@ -7,6 +7,7 @@ import (
 	"fmt"
 	"math/rand"
 	"strings"
+	"sync"
 	"time"
 
 	"github.com/ipld/go-ipld-prime"
@@ -94,6 +95,7 @@ var errNoNotification = errors.New("no SyncFinished notification within 60 s of 
 func runC02(c *vf.Ctx) {
 	c02BigBlocks(c)
 	c02Corrupt(c)
+	c02Branching(c)
 }
 
 // blocks whose encoded size is exactly a power of two (or one byte off): typical values of size caps
@@ -586,3 +588,209 @@ func httpBodyOf(e *c02Env, c cid.Cid) ([]byte, error) {
 
 var _ = peer.ID("")
 var _ = vf.Returned
+
+// c02Branching: the subscriber follows every link of an advertisement (StrictAdsSelector(false)), so one block has
+// several links — its entry chunks and its predecessor — and a bad answer for one of them is followed by good
+// answers for its siblings. The sync must fail all the same.
+func c02Branching(c *vf.Ctx) {
+	const sub = "branching-traversal"
+	if !c.Active(sub) {
+		return
+	}
+	r0 := c.Rand(sub, -1)
+	id := Keys()["ed25519"][2]
+	pub := NewStore()
+	proto := linkProto(multihash.SHA2_256, -1)
+	ch := &Chain{Proto: proto}
+	var all [][]cid.Cid // per advertisement: the ad, then its entry chunks from the first to the last
+	for k := 0; k < 4; k++ {
+		ech, err := NewEntryChain(r0, pub, 1+r0.Intn(3), proto)
+		if err != nil {
+			c.Fail(sub, -1, "harness-env", err.Error(), nil)
+			return
+		}
+		ad := schema.Advertisement{Provider: id.ID.String(), Addresses: []string{"/ip4/8.8.8.8/tcp/1234"}, Entries: cidlink.Link{Cid: ech.Head()},
+			ContextID: rbytes(r0, 6), Metadata: rbytes(r0, 4), Signature: rbytes(r0, 8)}
+		if len(ch.Cids) > 0 {
+			ad.PreviousID = cidlink.Link{Cid: ch.Head()}
+		}
+		nd, err := ad.ToNode()
+		if err != nil {
+			c.Fail(sub, -1, "harness-env", err.Error(), nil)
+			return
+		}
+		l, err := pub.Lsys.Store(ipld.LinkContext{}, proto, nd)
+		if err != nil {
+			c.Fail(sub, -1, "harness-env", err.Error(), nil)
+			return
+		}
+		ch.Cids = append(ch.Cids, l.(cidlink.Link).Cid)
+		blocks := []cid.Cid{ch.Head()}
+		for x := len(ech.Cids) - 1; x >= 0; x-- {
+			blocks = append(blocks, ech.Cids[x])
+		}
+		all = append(all, blocks)
+	}
+	front, err := NewFront(c, id, pub, MountPlain, "")
+	if err != nil {
+		c.Fail(sub, -1, "harness-env", err.Error(), nil)
+		return
+	}
+	defer front.Close()
+	n := c.N(300, 20000)
+	for i := 0; i < n; i++ {
+		if !c.Mine(sub, i) {
+			continue
+		}
+		r := c.Rand(sub, i)
+		headIdx := r.Intn(len(all))
+		var reach []cid.Cid
+		for x := headIdx; x >= 0; x-- {
+			reach = append(reach, all[x]...)
+		}
+		tpos := r.Intn(len(reach))
+		target := reach[tpos]
+		other := reach[(tpos+1+r.Intn(len(reach)-1))%len(reach)]
+		kind := c02MutKinds[r.Intn(len(c02MutKinds))]
+		if kind == "cut-mid-body" {
+			kind = "bitflip"
+		}
+		announced := r.Intn(3) == 0
+		desc := fmt.Sprintf("advertisements=%d blocks-reachable=%d corrupted=%d(%s) announced=%v", headIdx+1, len(reach), tpos, kind, announced)
+		c.Cur(sub, i, desc)
+		hit := 0
+		var served []byte
+		mr := rand.New(rand.NewSource(r.Int63()))
+		front.ResetLog()
+		front.Pub.SetRoot(ch.Cids[headIdx])
+		front.Plan = func(ev ReqEvent) *Fault {
+			if ev.Rsrc != target.String() {
+				return nil
+			}
+			return &Fault{Label: kind, Mutate: func(orig []byte) []byte {
+				ob, _ := pub.Raw(other)
+				m := c02Mutate(mr, kind, orig, ob)
+				if m == nil {
+					return orig
+				}
+				hit++
+				served = m
+				return m
+			}}
+		}
+		dst := NewStore()
+		var hmu sync.Mutex
+		var hooks []cid.Cid
+		opts := []dagsync.Option{dagsync.StrictAdsSelector(false), dagsync.BlockHook(func(_ peer.ID, cd cid.Cid, _ dagsync.SegmentSyncActions) {
+			hmu.Lock()
+			hooks = append(hooks, cd)
+			hmu.Unlock()
+		})}
+		if announced {
+			opts = append(opts, dagsync.RecvAnnounce(""))
+		}
+		s, err := newSubscriber(dst, opts...)
+		if err != nil {
+			c.Fail(sub, i, "harness-subscriber", err.Error(), nil)
+			continue
+		}
+		evs, cancel := s.OnSyncFinished()
+		var phases []string
+		wit := func() any {
+			sv := fmt.Sprintf("%q", served)
+			if len(served) > 200 {
+				sv = fmt.Sprintf("%d bytes: %q…", len(served), served[:200])
+			}
+			hmu.Lock()
+			var hs []string
+			for _, h := range hooks {
+				hs = append(hs, h.String())
+			}
+			hmu.Unlock()
+			return map[string]any{"case": desc, "corrupted_cid": target.String(), "served_instead": sv, "phases": phases, "hooks": hs, "requests": BlockRequests(front.Log())}
+		}
+		doSync := func() (cid.Cid, error) {
+			if announced {
+				if err := s.Announce(context.Background(), ch.Cids[headIdx], front.AddrInfo()); err != nil {
+					return cid.Undef, err
+				}
+				select {
+				case ev := <-evs:
+					return ev.Cid, ev.Err
+				case <-time.After(60 * time.Second):
+					return cid.Undef, errNoNotification
+				}
+			}
+			return s.SyncAdChain(context.Background(), front.AddrInfo())
+		}
+		audit := func(phase string) {
+			n, bad := dst.Audit()
+			c.Add("audited_store_entries", int64(n))
+			if len(bad) > 0 {
+				c.Fail(sub, i, "store-holds-block-not-matching-its-cid:"+kind, fmt.Sprintf("%s: %v", phase, bad), wit())
+			}
+		}
+		c.Guard(sub, i, wit, func() {
+			_, err := doSync()
+			if err == errNoNotification {
+				c.Fail(sub, i, "no-notification-after-announce", "", wit())
+				return
+			}
+			phases = append(phases, fmt.Sprintf("corrupted sync: err=%v fault-hit=%d", err, hit))
+			audit("after corrupted sync")
+			if hit == 0 {
+				if err != nil {
+					c.Fail(sub, i, "honest-sync-failed", err.Error(), wit())
+				}
+				return
+			}
+			c.Inc("corrupted_response_among_sibling_links")
+			if err == nil {
+				c.Fail(sub, i, "corrupted-sync-succeeded:"+kind, "a block with several links: one answer corrupted, its siblings intact", wit())
+			}
+			hmu.Lock()
+			for _, h := range hooks {
+				if h.Equals(target) {
+					c.Fail(sub, i, "corrupted-block-reported:"+kind, target.String(), wit())
+				}
+			}
+			hooks = nil
+			hmu.Unlock()
+			if l := s.GetLatestSync(id.ID); l != nil {
+				c.Fail(sub, i, "corrupted-sync-set-latest:"+kind, l.String(), wit())
+			}
+			if _, ok := dst.Raw(target); ok {
+				c.Fail(sub, i, "corrupted-block-stored:"+kind, target.String(), wit())
+			}
+			if announced && err == nil {
+				return
+			}
+			// honest retry: everything reachable is fetched and stored
+			front.Plan = nil
+			got, err := doSync()
+			if err == errNoNotification {
+				c.Fail(sub, i, "no-notification-after-reannounce", "", wit())
+				return
+			}
+			phases = append(phases, fmt.Sprintf("honest retry: err=%v", err))
+			audit("after honest retry")
+			if err != nil || !got.Equals(ch.Cids[headIdx]) {
+				c.Fail(sub, i, "honest-retry-failed:"+kind, fmt.Sprint(err), wit())
+				return
+			}
+			for _, b := range reach {
+				raw, ok := dst.Raw(b)
+				want, _ := pub.Raw(b)
+				if !ok || !bytes.Equal(raw, want) {
+					c.Fail(sub, i, "store-differs-from-fault-free-run", b.String(), wit())
+					break
+				}
+			}
+		})
+		cancel()
+		s.Close()
+		front.Plan = nil
+		c.Eval(2)
+		c.Distinct(sub, kind, fmt.Sprint(headIdx, tpos, announced))
+	}
+}
